@@ -450,6 +450,43 @@ func stepKeys(s []C12Step) string {
 
 func init() { registerReplay("c12hist", oracleC12Hist) }
 
+// lateWireImage registers the application's part under the table's late key and returns a valid wire image of the
+// table's holder carrying that key and the application part's five bytes (length and checksum right for this image).
+func lateWireImage(tb *Table, reg func() string) (key string, wire []byte, ok bool) {
+	holder := holderOf(tb)
+	ts := Types[holder]
+	di := ts.DynIndex()
+	key = reg()
+	full := Render(Skeleton(holder, 0), &RenderOpts{Spans: true})
+	var bodyOff, bodyLen int = -1, 0
+	for _, sp := range full.Spans {
+		if sp.Kind == "body" && sp.Path == "$."+ts.Fields[di].Go {
+			bodyOff, bodyLen = sp.Off, sp.Len
+		}
+	}
+	if bodyOff < 0 {
+		return key, nil, false
+	}
+	kv := Skeleton(holder, 0)
+	setKey(kv, ts, ts.FieldIndex(ts.Fields[di].Disc), key)
+	kb := Render(kv, nil).Bytes // same layout as full, key bytes replaced
+	part := []byte{0x5A, 1, 2, 3, 4}
+	wire = append(append(append([]byte{}, kb[:bodyOff]...), part...), kb[bodyOff+bodyLen:]...)
+	// self-computed fields of a frame must be right for THIS wire image (a decoder may verify them)
+	for _, sp := range full.Spans {
+		if sp.Path == "$."+lenFieldName(ts) && sp.Kind == "len" {
+			copy(wire[sp.Off:], putUint(nil, uint64(len(part)), sp.Len, ts.LE))
+		}
+	}
+	if cf := ckFieldName(ts); cf != "" {
+		f := ts.Fields[ts.FieldIndex(cf)]
+		n := NSize(f.NType)
+		sum := refChecksum(f.Algo, wire[:len(wire)-n])
+		copy(wire[len(wire)-n:], putUint(nil, sum&NMask(f.NType), n, ts.LE))
+	}
+	return key, wire, true
+}
+
 // c12LateRegistration: after the library has been used (every earlier subtest of this process decoded through
 // every table), an application registers a message type of its own under a fresh key; a message carrying that
 // key must now decode into the application's type, stream-decode correctly, and the pinned keys must be unaffected.
@@ -473,42 +510,11 @@ func c12LateRegistration(t *testing.T) {
 			Col.BrokenHarness("skeleton of " + holder + " does not decode")
 			continue
 		}
-		key := reg()
+		key, wire, okw := lateWireImage(tb, reg)
 		Col.Case(Hash64([]byte(tb.QName), []byte("late")), true, "late-registration")
-		// wire: the holder's skeleton with the late key, the application part's 5 bytes in place of the pinned part
-		v := Skeleton(holder, 0)
-		setKey(v, ts, ts.FieldIndex(ts.Fields[di].Disc), key)
-		v.F[di].O = nil
-		r := Render(v, &RenderOpts{Spans: true})
-		// Render of an absent part in a skip frame renders nothing; in a materialise holder it flags MustError: build bytes by hand
-		full := Render(Skeleton(holder, 0), &RenderOpts{Spans: true})
-		var bodyOff, bodyLen int = -1, 0
-		for _, sp := range full.Spans {
-			if sp.Kind == "body" && sp.Path == "$."+ts.Fields[di].Go {
-				bodyOff, bodyLen = sp.Off, sp.Len
-			}
-		}
-		_ = r
-		if bodyOff < 0 {
+		if !okw {
 			Col.BrokenHarness("cannot locate the part of " + holder)
 			continue
-		}
-		kv := Skeleton(holder, 0)
-		setKey(kv, ts, ts.FieldIndex(ts.Fields[di].Disc), key)
-		kb := Render(kv, nil).Bytes // same layout as full, key bytes replaced
-		part := []byte{0x5A, 1, 2, 3, 4}
-		wire := append(append(append([]byte{}, kb[:bodyOff]...), part...), kb[bodyOff+bodyLen:]...)
-		// self-computed fields of a frame must be right for THIS wire image (a decoder may verify them)
-		for _, sp := range full.Spans {
-			if sp.Path == "$."+lenFieldName(ts) && sp.Kind == "len" {
-				copy(wire[sp.Off:], putUint(nil, uint64(len(part)), sp.Len, ts.LE))
-			}
-		}
-		if cf := ckFieldName(ts); cf != "" {
-			f := ts.Fields[ts.FieldIndex(cf)]
-			n := NSize(f.NType)
-			sum := refChecksum(f.Algo, wire[:len(wire)-n])
-			copy(wire[len(wire)-n:], putUint(nil, sum&NMask(f.NType), n, ts.LE))
 		}
 		stream := append(append([]byte{}, wire...), Render(base, nil).Bytes...)
 		obj := regByName[holder].New()
